@@ -298,6 +298,13 @@ func (c *Ctx) havocMapObj(st *State, m Term, mt *types.Map) {
 
 // callByContract: assert pre, havoc frame, assume post.
 func (c *Ctx) callByContract(st *State, fr *Frame, ins ssa.Instruction, ct *Contract, f *ssa.Function, method *types.Func, sig *types.Signature, res ssa.Value, args []Value, key string) []cont {
+	vals := c.applyContract(st, fr, ins, ct, f, method, sig, args, key)
+	c.bindResult(fr, res, sig, vals)
+	return one(st, fr)
+}
+
+// applyContract: assert pre, havoc frame, assume post; returns the (fresh) results.
+func (c *Ctx) applyContract(st *State, fr *Frame, ins ssa.Instruction, ct *Contract, f *ssa.Function, method *types.Func, sig *types.Signature, args []Value, key string) []Value {
 	env := &specEnv{c: c, st: st, vars: map[string]specVal{}, callee: true}
 	// bind parameter names
 	var names []string
@@ -350,7 +357,7 @@ func (c *Ctx) callByContract(st *State, fr *Frame, ins ssa.Instruction, ct *Cont
 			env.pkg = c.typesPkgOf(f)
 		}
 	}
-	if env.pkg == nil && c.cur != nil {
+	if env.pkg == nil && c.cur != nil && c.cur.fn != nil {
 		env.pkg = c.typesPkgOf(c.cur.fn)
 	}
 	env.specPkgPath = ct.Opts["pkg"]
@@ -416,8 +423,7 @@ func (c *Ctx) callByContract(st *State, fr *Frame, ins ssa.Instruction, ct *Cont
 	} else {
 		c.cur.modularUsed[key] = true
 	}
-	c.bindResult(fr, res, sig, vals)
-	return one(st, fr)
+	return vals
 }
 
 // havocForContract forgets what the callee may modify.
